@@ -42,13 +42,33 @@ type Req struct {
 
 const asset = "USD"
 
-func real(a string) string { return strings.ToLower(a) }
+// model account "XE" is account x in the second asset
+func real(a string) string {
+	if len(a) == 2 && strings.HasSuffix(a, "E") {
+		a = a[:1]
+	}
+	return strings.ToLower(a)
+}
+func assetOf(a string) string {
+	if len(a) == 2 && strings.HasSuffix(a, "E") {
+		return asset2
+	}
+	return asset
+}
 func model(a string) string {
 	if a == "world" {
 		return a
 	}
 	return strings.ToUpper(a)
 }
+func modelIn(a, as string) string {
+	if a != "world" && as == asset2 {
+		return model(a) + "E"
+	}
+	return model(a)
+}
+
+const asset2 = "EUR"
 
 // script renders the postings of a create request as Numscript, naming the
 // sources as literals, as variables, or through account metadata.
@@ -88,7 +108,11 @@ func script(r Req, p string) ledger.RunScript {
 				src = fmt.Sprintf("{\n\t\t%s\n\t}", src)
 			}
 		}
-		fmt.Fprintf(&body, "send [%s %d] (\n\tsource = %s\n\tdestination = @%s\n)\n", asset, po.Amt, src, real(po.Dst))
+		as := assetOf(po.Dst)
+		if po.Src != "world" {
+			as = assetOf(po.Src)
+		}
+		fmt.Fprintf(&body, "send [%s %d] (\n\tsource = %s\n\tdestination = @%s\n)\n", as, po.Amt, src, real(po.Dst))
 	}
 	if r.Mode == "meta" {
 		decl = append(decl, "\taccount $payer = meta(@m, \"payer\")\n")
@@ -212,7 +236,7 @@ func call(ctx context.Context, c *command.Commander, p string, r Req) (resp Resp
 func absPostings(ps ledger.Postings) []Posting {
 	out := []Posting{}
 	for _, p := range ps {
-		out = append(out, Posting{Src: model(p.Source), Dst: model(p.Destination), Amt: p.Amount.Int64()})
+		out = append(out, Posting{Src: modelIn(p.Source, p.Asset), Dst: modelIn(p.Destination, p.Asset), Amt: p.Amount.Int64()})
 	}
 	return out
 }
